@@ -527,27 +527,32 @@ class _Budget(Exception):
     pass
 
 
+_FIRED = [False]
+
+
 def _alarm(sig, frm):
+    _FIRED[0] = True
     raise _Budget()
 
 
 def _worker(args):
     import signal
     qn, vi, timeout_ms = args
-    budget = int(os.environ.get("PYVC_FUNCTION_BUDGET_S", "60" if timeout_ms <= 10000 else "900"))
+    budget = int(os.environ.get("PYVC_FUNCTION_BUDGET_S", "100" if timeout_ms <= 10000 else "900"))
     signal.signal(signal.SIGALRM, _alarm)
     signal.alarm(budget)
     try:
         r = verify_contract(qn, timeout_ms, vi)
-    except _Budget:
+    except Exception as e:
+        # the alarm may surface inside a z3 ctypes callback as another exception type
+        if not (_FIRED[0] or isinstance(e, _Budget)):
+            return {"qualname": qn, "obligations": [], "paths": 0, "fault": traceback.format_exc(), "assumptions": [],
+                    "unsupported": None, "segment": None, "inlined": [], "contract_calls": []}
         program, contracts = load_all()
         f = getattr(contracts[qn], "func_obj", None) or program.resolve(qn)
         return {"qualname": qn, "obligations": [], "paths": 0, "fault": None, "assumptions": [], "inlined": [],
                 "contract_calls": [], "segment": program.segment(f) if f else None,
                 "unsupported": f"exploration budget of {budget}s exceeded (undecided, not a violation)"}
-    except Exception:
-        return {"qualname": qn, "obligations": [], "paths": 0, "fault": traceback.format_exc(), "assumptions": [],
-                "unsupported": None, "segment": None, "inlined": [], "contract_calls": []}
     finally:
         signal.alarm(0)
     for k in ("assumptions", "inlined", "contract_calls", "raised_kinds"):
@@ -568,7 +573,7 @@ def _child(conn, task):
 def _run_tasks(ctx, tasks, timeout_ms, width=16):
     """One process per (function, variant), at most `width` at a time; a process that overruns its budget (z3 can
     ignore its timeout inside recursive-function propagation) is killed and the function reported as undecided."""
-    budget = int(os.environ.get("PYVC_FUNCTION_BUDGET_S", "60" if timeout_ms <= 10000 else "900"))
+    budget = int(os.environ.get("PYVC_FUNCTION_BUDGET_S", "100" if timeout_ms <= 10000 else "900"))
     pending = list(enumerate(tasks))
     running, results = [], {}
     while pending or running:
